@@ -143,7 +143,20 @@ def cells():
 SAFE = "abcdefghijklmnopqrstuvwxyzABCDEFGHIJKLMNOPQRSTUVWXYZ0123456789"
 
 
+FORCE_STRING = None     # set by a check that wants a particular string content at the next string-valued keyword
+
+
 def rstring(rng, fancy=True):
+    if fancy:
+        # the classes a printer / reader is most likely to get wrong: the empty string, strings that look like numbers,
+        # strings that look like keywords
+        c = rng.random()
+        if c < .03:
+            return ""
+        if c < .06:
+            return rng.choice(["7", "12.5", "-3", "0", "1e3"])
+        if c < .08:
+            return rng.choice(["END", "on", "true", "Layer", "AUTO"])
     n = rng.randint(1, 10)
     alphabet = SAFE + (" _-.:/%é𝄞,;=" if fancy else "")
     s = "".join(rng.choice(alphabet) for _ in range(n)).strip()
@@ -187,7 +200,7 @@ def value_for(rng, shape, key):
     if k == "intlit":
         return shape[1], [(str(shape[1]), "num")], "int"
     if k == "string":
-        s = rstring(rng)
+        s = rstring(rng) if FORCE_STRING is None else FORCE_STRING
         return s, [(s, "qstr")], "string"
     if k == "binding":
         a = rng.choice(["name", "Attr_1", "pop2020"])
